@@ -21,13 +21,14 @@ def plan(tier):
         return [
             # 2 rows (one inside P[1].items, one outside); attribute b is the link the collection is derived from,
             # or volatile (exempt), or optimistic=False / float (not exempt from repeatable reads)
-            dict(name='c21-reader-writer', how='graph', limit=700,
+            dict(name='c21-reader-writer', how='graph', limit=640,
                  cfg=dict(NS=2, NO=2, MaxOps=2, KB=('link', 'volatile', 'nonopt'), OpSet1=READER, OpSet=WRITER)),
-            # scalar attributes, reader with 3 operations (incl. get_for_update as re-delivery), writer updates/deletes
-            dict(name='c21-scalar-3ops', how='graph', limit=220,
-                 cfg=dict(NS=2, NO=1, MaxOps=3, OpSet1=('R', 'Q', 'GFU'), OpSet=WRITER)),
+            # scalar attributes; the reader also writes and commits in the middle of its db_session (what it wrote and
+            # read back must stay protected after the commit); the writer updates / deletes once
+            dict(name='c21-scalar-commit', how='graph', limit=260,
+                 cfg=dict(NS=2, NO=1, MaxOps=4, MaxOpsN=1, OpSet1=('R', 'W', 'Q', 'CM'), OpSet=WRITER)),
             dict(name='c21-link-3ops-sim', how='simulate', num=180, depth=14,
-                 cfg=dict(NS=2, NO=2, MaxOps=3, KB='link', OpSet1=READER + ('W',), OpSet=WRITER + ('R',))),
+                 cfg=dict(NS=2, NO=2, MaxOps=3, KB='link', OpSet1=READER + ('W', 'CM'), OpSet=WRITER + ('R',))),
         ]
     return [
         dict(name='c21-reader-writer', how='graph', limit=5000,
@@ -44,11 +45,13 @@ def plan(tier):
         # symmetric sessions: everybody reads, writes and reads collections
         dict(name='c21-link-symmetric', how='graph', limit=3000,
              cfg=dict(NS=2, NO=2, MaxOps=2, KB='link', OpSet=('R', 'W', 'Q', 'RC', 'LC'))),
-        dict(name='c21-scalar-3ops', how='graph', limit=3000,
+        dict(name='c21-scalar-3ops', how='graph', limit=2500,
              cfg=dict(NS=2, NO=1, MaxOps=3, OpSet1=('R', 'Q', 'GFU', 'W'), OpSet=WRITER)),
+        dict(name='c21-scalar-commit', how='graph', limit=2500,
+             cfg=dict(NS=2, NO=1, MaxOps=4, MaxOpsN=1, KB=('opt', 'nonopt'), OpSet1=('R', 'W', 'Q', 'QR', 'CM'), OpSet=WRITER)),
         # one reader, two writers, programs <= 4: simulation
         dict(name='c21-3s-4ops-sim', how='simulate', num=2500, depth=24,
-             cfg=dict(NS=3, NO=2, MaxOps=4, KB=('link', 'nonopt'), OpSet1=READER + ('W', 'GFU'), OpSet=WRITER + ('R', 'F'))),
+             cfg=dict(NS=3, NO=2, MaxOps=4, KB=('link', 'nonopt'), OpSet1=READER + ('W', 'GFU', 'CM'), OpSet=WRITER + ('R', 'F', 'CM'))),
     ]
 
 
